@@ -72,6 +72,12 @@ V10_PARSE_SECTIONS = ["V10_parse.parse_tag_section.*", "V10_parse.fn:parse_tag_s
                       "V10_parse.ElementItems.from_wasmparser.*", "V10_parse.fn:ElementItems::from_wasmparser", "V10_parse.fn:Element::new", "V10_parse.fn:lemma_first_err", "V10_parse.fn:lemma_first_err_le", "V10_parse.fn:lemma_first_bad_elem",
                       "V10_parse.parse_import_section.*", "V10_parse.fn:parse_import_section", "V10_parse.ModuleImports.new.*", "V10_parse.fn:ModuleImports::new", "V10_parse.fn:Import as From::from",
                       "V10_parse.fn:Import::is_*", "V10_parse.fn:lemma_n_of_le"]
+# what PARSING establishes for the three index spaces: ids are positions, imports first (the base case of fwf / gwf / mwf and of reindex_ready)
+PARSE_IDS_FUNCS = ["V10_parse.build_functions.*", "V10_parse.fn:build_functions", "V10_parse.parse_import_section.*", "V10_parse.fn:parse_import_section", "V10_parse.ModuleImports.new.*",
+                   "V10_parse.fn:ModuleImports::new", "V10_parse.fn:ModuleImports::iter", "V10_parse.fn:lemma_n_func_imports_le", "V10_parse.fn:Function::new", "V10_parse.fn:ImportedFunction::new"]
+PARSE_IDS_GLOBALS = ["V6b_api2.ModuleGlobals.new.*", "V6b_api2.fn:ModuleGlobals::new", "V6b_api2.fn:lemma_n_glob_imports_le", "V6b_api2.fn:ModuleImports::iter"]
+PARSE_IDS_MEMS = ["V6b_api2.build_memories.*", "V6b_api2.fn:Module::build_memories", "V6b_api2.fn:Memory::new", "V6b_api2.fn:lemma_n_mem_imports_le"]
+PARSE_IDS_GLUE = "that the three re-indexing preconditions hold for a freshly parsed module is decided for each index space on the code that builds it at the end of parse_internal (functions: V10 region build_functions; globals: ModuleGlobals::new; memories: V6b region build_memories - ids are positions, imports first, counters = numbers of imports of each kind); that these pieces are put into the Module unchanged (the struct literal at the end of parse_internal) is read off the text"
 V12_CUSTOM = ["V12_sections.encode_custom_sections.*", "V12_sections.fn:Module::encode_custom_sections", "V12_sections.fn:CustomSections::iter"]
 V12_TRUST = ["TRUSTED model of the wasm-encoder section builders (V12): an export / data / custom section under construction is the sequence of entries handed to it; ExportKind::from(ExternalKind) is faithful; InitExpr::to_wasmencoder_type is faithful (numeric constants: Kani K4)",
              "V12 names three expressions of the data loop and one statement of the custom-section loop by rule R11 (iterator adapters / generic builders are outside Verus): their contracts are assumed; V12 assumes the InitInstr::fix_id_mapping contract that V3 proves",
@@ -166,14 +172,14 @@ PROPS = {
     },
     "C06": {
         "title": "Function references stay bound to the same function across edits",
-        "units": ["V2_reindex", "V3_remap", "V6_api", "V11_emit", "V12_sections"],
+        "units": ["V2_reindex", "V3_remap", "V6_api", "V11_emit", "V12_sections", "V10_parse"],
         "kani_thorough": ["k5_spec_ref_func"],
         "obligations": ["K:k5_spec_ref_func"] + V2_GENERIC + v2_inst("Function", "Functions") + V6_FUNCS + [
             "V3_remap.refers_to_func.*", "V3_remap.fn:refers_to_func", "V3_remap.update_fn_instr.*", "V3_remap.fn:update_fn_instr",
             "V3_remap.fix_op_id_mapping.*", "V3_remap.fn:fix_op_id_mapping", "V3_remap.InitInstr.*", "V3_remap.fn:InitInstr::fix_id_mapping",
             "V3_remap.fn:lemma_families_disjoint"],
-        "obligations_extra": V12_CEXPR + V12_ELEMS + V12_TABLES + V12_IMPORTS + V12_EXPORTS + V12_START + V12_DATA + ["V11_emit.fn:encode_function_body", "V11_emit.update_ids_and_encode.*", "V11_emit.fn:update_ids_and_encode"],
-        "glue": V11_TRUST + V12_TRUST + [ENCODE_GLUE, "export / start / element-segment remapping lines in encode_internal", "'output validates' (wasmparser validator) is not decided"],
+        "obligations_extra": PARSE_IDS_FUNCS + V12_CEXPR + V12_ELEMS + V12_TABLES + V12_IMPORTS + V12_EXPORTS + V12_START + V12_DATA + ["V11_emit.fn:encode_function_body", "V11_emit.update_ids_and_encode.*", "V11_emit.fn:update_ids_and_encode"],
+        "glue": [PARSE_IDS_GLUE] + V11_TRUST + V12_TRUST + [ENCODE_GLUE, "export / start / element-segment remapping lines in encode_internal", "'output validates' (wasmparser validator) is not decided"],
         "design_ref": "DESIGN.md §4 V2 V3, §5 C06",
     },
     "C07": {
@@ -183,8 +189,8 @@ PROPS = {
         "obligations": ["K:k5_spec_global_get"] + V2_GENERIC + v2_inst("Global", "ModuleGlobals") + V6_GLOBALS + [
             "V3_remap.refers_to_global.*", "V3_remap.fn:refers_to_global", "V3_remap.update_global_instr.*", "V3_remap.fn:update_global_instr",
             "V3_remap.fix_op_id_mapping.*", "V3_remap.fn:fix_op_id_mapping", "V3_remap.InitInstr.*", "V3_remap.fn:InitInstr::fix_id_mapping"],
-        "obligations_extra": V12_CEXPR + V12_ELEMS + V12_TABLES + V12_GLOBALS + V12_EXPORTS + V12_DATA + ["V11_emit.fn:encode_function_body", "V11_emit.update_ids_and_encode.*", "V11_emit.fn:update_ids_and_encode"],
-        "glue": V11_TRUST + V12_TRUST + [ENCODE_GLUE, "global export emission; table/element constant expressions", "'output validates' is not decided"],
+        "obligations_extra": PARSE_IDS_GLOBALS + V12_CEXPR + V12_ELEMS + V12_TABLES + V12_GLOBALS + V12_EXPORTS + V12_DATA + ["V11_emit.fn:encode_function_body", "V11_emit.update_ids_and_encode.*", "V11_emit.fn:update_ids_and_encode"],
+        "glue": [PARSE_IDS_GLUE] + V11_TRUST + V12_TRUST + [ENCODE_GLUE, "global export emission; table/element constant expressions", "'output validates' is not decided"],
         "design_ref": "DESIGN.md §4 V2 V3, §5 C07",
     },
     "C08": {
@@ -193,17 +199,17 @@ PROPS = {
         "obligations": V2_GENERIC + v2_inst("Memory", "Memories") + V6_MEMS + [
             "V3_remap.refers_to_memory.*", "V3_remap.fn:refers_to_memory", "V3_remap.update_memory_instr.*", "V3_remap.fn:update_memory_instr",
             "V3_remap.fix_op_id_mapping.*", "V3_remap.fn:fix_op_id_mapping"],
-        "obligations_extra": V12_EXPORTS + V12_DATA + ["V11_emit.fn:encode_function_body", "V11_emit.update_ids_and_encode.*", "V11_emit.fn:update_ids_and_encode"],
-        "glue": V11_TRUST + V12_TRUST + [ENCODE_GLUE, "data-segment memory index and memory export lines in encode_internal", "'output validates' is not decided"],
+        "obligations_extra": PARSE_IDS_MEMS + V12_EXPORTS + V12_DATA + ["V11_emit.fn:encode_function_body", "V11_emit.update_ids_and_encode.*", "V11_emit.fn:update_ids_and_encode"],
+        "glue": [PARSE_IDS_GLUE] + V11_TRUST + V12_TRUST + [ENCODE_GLUE, "data-segment memory index and memory export lines in encode_internal", "'output validates' is not decided"],
         "design_ref": "DESIGN.md §4 V2 V3, §5 C08",
     },
     "C09": {
         "title": "Deletion removes exactly the deleted entity",
-        "units": ["V2_reindex", "V3_remap", "V6_api", "V6b_api2", "V11_emit", "V12_sections"],
+        "units": ["V2_reindex", "V3_remap", "V6_api", "V6b_api2", "V11_emit", "V12_sections", "V10_parse"],
         "obligations": V2_GENERIC + v2_inst("Function", "Functions") + v2_inst("Global", "ModuleGlobals") + v2_inst("Memory", "Memories") + V6_DELETES + [
             "V3_remap.update_*_instr.*", "V3_remap.fn:update_*_instr", "V3_remap.fn:InitInstr::fix_id_mapping"],
-        "obligations_extra": V11_CODE + V12_EXPORTS + V12_START + V12_ELEMS + ["V11_emit.fn:encode_function_body", "V11_emit.update_ids_and_encode.*", "V11_emit.fn:update_ids_and_encode"],
-        "glue": V11_TRUST + V12_TRUST + [ENCODE_GLUE, "ModuleExports::delete / ModuleImports::delete flags are honoured by emission loops in encode_internal",
+        "obligations_extra": PARSE_IDS_FUNCS + PARSE_IDS_GLOBALS + PARSE_IDS_MEMS + V11_CODE + V12_EXPORTS + V12_START + V12_ELEMS + ["V11_emit.fn:encode_function_body", "V11_emit.update_ids_and_encode.*", "V11_emit.fn:update_ids_and_encode"],
+        "glue": [PARSE_IDS_GLUE] + V11_TRUST + V12_TRUST + [ENCODE_GLUE, "ModuleExports::delete / ModuleImports::delete flags are honoured by emission loops in encode_internal",
                  "'fails loudly': update_* are proved panic-free exactly when every referenced id has an image; the converse (a missing image panics rather than writing an index) is by inspection of the three `None => panic!` arms"],
         "design_ref": "DESIGN.md §4 V2 V3, §5 C09",
     },
